@@ -123,6 +123,31 @@ func TestC08(t *testing.T) {
 			v, c = runAll(rev)
 			line.Configs = append(line.Configs, c08Config{Name: "fresh-repeat", K: nlog - 1, K2: -1, Verdicts: v, Changed: c})
 		}
+		// cache populated at the tip, then ONLY full verifications, twice: the second pass starts from
+		// the checkpoints the first pass wrote (no latest-only / from-entry run in between)
+		dropCache(b)
+		if err := cache.PopulatePersistentCache(b.Repo); err == nil {
+			fullOnly := []int{}
+			for qi, q := range qs {
+				if q.Mode == "full" {
+					fullOnly = append(fullOnly, qi)
+				}
+			}
+			runSome := func() ([]VResult, []string) {
+				res := make([]VResult, len(qs))
+				for qi := range res {
+					res[qi] = VResult{Class: "skip", Tip: -1}
+				}
+				before := listRefs(t, b)
+				for _, qi := range fullOnly {
+					res[qi] = RunQuery(b, qs[qi])
+				}
+				return res, changedRefs(before, listRefs(t, b))
+			}
+			runSome()
+			v, c := runSome()
+			line.Configs = append(line.Configs, c08Config{Name: "fresh-full-twice", K: nlog - 1, K2: -1, Verdicts: v, Changed: c})
+		}
 		// cache populated at earlier points of the log's growth
 		ks := []int{}
 		nks := 1
@@ -182,6 +207,38 @@ func TestC08(t *testing.T) {
 	rng := NewRng(seed*1000003 + uint64(shard) + 808)
 	for i := 0; i < n; i++ {
 		s := rng.U64()
+		if rng.Chance(25) {
+			// a recovery that is found but must still be rejected: good A, violation B (revoked),
+			// violation C (NOT revoked), valid fix D tree-same as A, optionally more pushes; verified
+			// repeatedly under every cache configuration
+			r2 := NewRng(s)
+			b := NewWorldBuilder(t)
+			main := "refs/heads/main"
+			b.AddPolicy(basePolicy(), r2.Bool())
+			t1 := b.AddTree([]WFile{{"README", 1}})
+			cA := b.AddCommit(nil, t1, ip(2))
+			b.Push(main, cA, ip(2))
+			cB := b.AddCommit(ip(cA), b.AddTree([]WFile{{"README", 2}}), ip(kOutsider))
+			eB := b.Push(main, cB, ip(kOutsider))
+			cC := b.AddCommit(ip(cB), b.AddTree([]WFile{{"README", 3}}), ip(kOutsider))
+			eC := b.Push(main, cC, ip(kOutsider))
+			covered := []int{eB}
+			if r2.Chance(30) {
+				covered = append(covered, eC) // complete revocation: the recovery succeeds
+			}
+			b.Annotate(covered, true, ip(2))
+			cD := b.AddCommit(ip(cC), t1, ip(2))
+			eD := b.Push(main, cD, ip(2))
+			tip := cD
+			for k := r2.Intn(3); k > 0; k-- {
+				c := b.AddCommit(ip(tip), b.AddTree([]WFile{{"README", 10 + k}}), ip(2))
+				b.Push(main, c, ip(2))
+				tip = c
+			}
+			qs := []VQuery{{Mode: "full", Ref: main}, {Mode: "latest", Ref: main}, {Mode: "from", Ref: main, From: eD}}
+			run(shard*1000000+i+1, b, qs, rng, fmt.Sprintf("incomplete-revocation seed=%d", s))
+			continue
+		}
 		if rng.Chance(45) {
 			// recovery patterns (revoked violations, incomplete revocations, fixes): the checkpoints
 			// written on the way are what the cache configurations then start from
